@@ -1,4 +1,5 @@
 """C17 - embedded docstrings are the right text, correctly escaped, change nothing else (Engines E, F)."""
+from .. import rules_flow as RF
 from .. import rules_xml as RX
 
 ID = "C17"
@@ -28,3 +29,4 @@ def run(ctx, rep):
     rep.run(RX.rule_overload_counter, ctx, rep, "Q4")
     rep.run(RX.rule_lookup_provenance, ctx, rep, "Q5")
     rep.run(RX.rule_docstring_untouched, ctx, rep, "Q6")
+    rep.run(RF.rule_locals_defined, ctx, rep, "U1", packages=("gtwrap/xml_parser", "gtwrap/pybind_wrapper.py"), min_functions=3)
